@@ -397,6 +397,12 @@ def check_update(ctx, case, o, after):
             uin = float(ua[s.surface_idx - 1])
             if not math.isfinite(y) or abs(uin) < 1e-6:
                 continue     # slope ~ 0: no axial shift can change the height (outside the guard)
+            # conditioning: vertex positions carry eps*|z|, which the slope turns into a height; heights carry
+            # eps*|y| (an optimiser can leave air spaces of 1e5 mm and slopes of 1e3 behind)
+            zs = [abs(float(np.ravel(q.geometry.cs.z)[0])) for q in o.surface_group.surfaces[1:]]
+            cond = 64 * 2.2e-16 * (abs(uin) * max([z for z in zs if math.isfinite(z)] + [1.0])
+                                   + float(np.max(np.abs(ya))))
+            htol = 1e-7 * max(1.0, abs(s.height)) + cond
             # the same with a marginal ray traced independently of paraxial.py (matrix specification of C04), where
             # that specification applies (no decentred / tilted surface)
             if plain is None:
@@ -409,11 +415,11 @@ def check_update(ctx, case, o, after):
                     plain, spm = False, None
             if plain and spm is not None and len(spm[0]) >= s.surface_idx:
                 yi = float(spm[0][s.surface_idx - 1])
-                if math.isfinite(yi) and abs(yi - s.height) > 1e-7 * max(1.0, abs(s.height)):
+                if math.isfinite(yi) and abs(yi - s.height) > htol:
                     ctx.fail('after update() the marginal ray (traced independently) has the requested height on the '
                              'solved surface %d' % s.surface_idx, case, yi, s.height)
                     return
-            if abs(y - s.height) > 1e-7 * max(1.0, abs(s.height)):
+            if abs(y - s.height) > htol:
                 ctx.fail('after update() the marginal ray has the requested height on the solved surface %d'
                          % s.surface_idx, case, y, s.height)
                 return
